@@ -87,7 +87,8 @@ def run_body(rep, r, wd, quick):
         steps = [{"do": "proc", "hashseed": "0"}]
         order = r.choice([("arg", "bare"), ("arg", "bare", "arg"), ("bare", "arg", "bare")])
         for j, kind in enumerate(order, start=1):
-            steps.append({"do": "call", "name": "m1", "how": how, "arg": j, "fnarg": t if kind == "arg" else None})
+            steps.append({"do": "call", "name": "m1", "how": how, "arg": j, "fnarg": t if kind == "arg" else None,
+                          "bind": "partial" if (kind == "arg" and (i + j) % 3 == 0) else None})
         jobs.append({"prog": p, "steps": steps})
     traces = common.run_jobs("ver_worker.py", jobs, wd, timeout=3000)
     payload = []
